@@ -42,7 +42,12 @@ pub fn host_from_token(t: &str) -> Host<String> {
 
 /// host_internal token: n | d | 4<hex> | 6<list>
 pub fn hi_token(u: &Url) -> String {
-    match u.host() {
+    // on a corrupted record (host_end < host_start, ...) Url::host() itself can panic
+    let h = match std::panic::catch_unwind(std::panic::AssertUnwindSafe(|| u.host().map(|h| h.to_owned()))) {
+        Ok(h) => h,
+        Err(_) => return "panic".to_string(),
+    };
+    match h {
         None => "n".to_string(),
         Some(Host::Domain(_)) => "d".to_string(),
         Some(Host::Ipv4(a)) => format!("4{:x}", u32::from(a)),
